@@ -135,8 +135,7 @@ def case_history(mon: Monitor, rng: random.Random) -> None:
     c, e = call(lambda: (xx.odc.crs, xx.odc.spatial_dims, xx.odc.transform))
     ok_acc = e is None and c[0] == g.crs and tuple(c[1]) == tuple(g.dimensions)
     mon.check(ok_acc, "accessors", lambda: {**desc, "crs": str(c[0]) if c else None, "spatial_dims": c[1] if c else None, "exc": e}, key="accessors", cls=cls)
-    if not linear:
-        return  # histories on GCP boxes: slicing produces pixel-space affines; covered by C02 for the boxes themselves
+    # (histories on control-point boxes too: slicing gives them a pixel-side affine, and the accessor caches the box on the array - the pickled array must bring it along intact)
     # ---- history with trackers
     iy, ix = np.arange(ny), np.arange(nx)
     ydim, xdim = xx.odc.spatial_dims
@@ -184,10 +183,19 @@ def case_history(mon: Monitor, rng: random.Random) -> None:
             return mon.fail("history", wit({"shape": list(gg.shape), "crs": str(gg.crs)}), key="history-shape-crs", cls=cls)
         # every remaining element sits where its original pixel was
         jj, ii = np.meshgrid(np.arange(len(ix)) + 0.5, np.arange(len(iy)) + 0.5)
-        got = at(gg, np.c_[jj.ravel(), ii.ravel()])
         ox, oy = np.meshgrid(ix + 0.5, iy + 0.5)
-        want = at(g, np.c_[ox.ravel(), oy.ravel()])
-        px = float(np.abs(pairs.M3(g.affine)[:2, :2]).sum())
+        if linear:
+            got = at(gg, np.c_[jj.ravel(), ii.ravel()])
+            want = at(g, np.c_[ox.ravel(), oy.ravel()])
+            px = float(np.abs(pairs.M3(g.affine)[:2, :2]).sum())
+        else:
+            # control-point boxes: the original box's own mapping says where each original pixel is; the recovered box must say the same for what is left of them
+            if getattr(gg, "linear", True):
+                return mon.fail("history", wit({"why": "control-point box came back as an affine box"}), key="history-shape-crs", cls=cls)
+            got = np.stack([np.asarray(v, dtype="float64").ravel() for v in gg.pix2wld(jj.ravel().copy(), ii.ravel().copy())], axis=1)
+            want = np.stack([np.asarray(v, dtype="float64").ravel() for v in g.pix2wld(ox.ravel().astype("float64"), oy.ravel().astype("float64"))], axis=1)
+            px = 2 * max(abs(g.resolution.x), abs(g.resolution.y))
+            rot = True  # labels of such arrays are pixel indices, not world coordinates
         tol = 1e-6 * px * (100 if rot else 1) + 64 * np.spacing(max(1.0, float(np.abs(want).max())))
         err = float(np.abs(got - want).max())
         ok_pos = err <= tol
@@ -202,6 +210,7 @@ def case_history(mon: Monitor, rng: random.Random) -> None:
                   sig=hsig("h", repr(desc), repr(hist)), sample=wit())
         if not (ok_pos and ok_lab):
             return
+        rot = fam in ("rotated", "sheared")
 
 
 def case_reproject(mon: Monitor, rng: random.Random) -> None:
